@@ -27,7 +27,7 @@ func (c08) RequiredBuckets(tier string) []string {
 	out := []string{"segments:1", "segments:2", "segments:3", "segments:4", "segments:5", "strand:fwd", "strand:rev", "strand:mixed",
 		"mod:^", "mod:$", "mod:^$", "mod:^^", "mod:$$", "window:inside", "window:extends-5'", "window:extends-3'", "window:zero-length", "window:crosses-junction",
 		"modifier-roundtrip", "locator:modifier", "locator:point", "locator:range", "locator:complement", "locator:selector", "locator:selector@mod", "locator:@mod", "locator:no-match", "locator:table-not-sorted"}
-	out = append(out, "cmd:extract", "cmd:extract -v", "extract:two-locators", "stream:records-independent")
+	out = append(out, "cmd:extract", "cmd:extract -v", "extract:two-locators", "stream:records-independent", "cache-on:after-sibling")
 	return out
 }
 func (c08) Findings() []fw.Finding { return nil }
